@@ -1,73 +1,528 @@
-// C24: tracer (engine S) and driver for LogarithmicStrainHandler<1u> (1D; Lagrangian setting).
-//   trace gen <out.v> [seed] : Hencky strain, T -> S conversion, tangent conversion as Coq definitions; AGREE lines
+// C24: tracer (engine S) of LogarithmicStrainHandler<1u>, <2u>, <3u> of /repo.
+//   trace gen <out.v> [seed]
+// 1D: the whole handler, both settings.  2D / 3D: the eigen-decomposition of C (Jacobi iterations, not traceable) is replaced, for the
+// symbolic scalar only, by injected eigenvalues vp and eigenvectors m (full specialisation of the solver class used by the handler);
+// the handler is traced in stages with fresh variables at the interfaces:
+//   lsh<N>_N m            : getNTensors                                   (private static)
+//   lsh<N>_M m F          : getEulerianMTensors                           (private static)
+//   lsh<N>_build_L vp m   : Builder, Lagrangian setting  -> p, e, Hencky strain      (decision tree over the eigenvalue-tie tests)
+//   lsh<N>_build_E vp m F : Builder, Eulerian setting    -> p
+//   lsh<N>_stress p T     : convertToSecondPiolaKirchhoffStress          -> S
+//   lsh<N>_conv vp e p T Ks N M : convertTangentModuli (private)           -> Kr       (decision tree over the eigenvalue-tie tests)
+// The composition of the stages is compared with the public entry points of the double instantiation (real Jacobi solver) on seeded
+// deformation gradients, degenerate ones included (AGREE lines).
 #include "symtfel.hxx"
+#include <cstring>
+#include <iostream>
+#include <memory>
+#include <functional>
 #include "TFEL/Math/stensor.hxx"
 #include "TFEL/Math/tensor.hxx"
 #include "TFEL/Math/st2tost2.hxx"
+#include "TFEL/Math/tmatrix.hxx"
+#include "TFEL/Math/t2tost2.hxx"
+#include "TFEL/Math/st2tot2.hxx"
+#include "TFEL/Math/t2tot2.hxx"
+
+// ---- injected eigen-data for the symbolic scalar
+namespace c24 {
+  inline symv::Sym g_vp[3];
+  inline symv::Sym g_m[9];
+}  // namespace c24
+namespace tfel::math::internals {
+  template <>
+  struct StensorEigenSolver<stensor_common::FSESJACOBIEIGENSOLVER, 3u, symv::Sym> {
+    static void computeEigenValues(symv::Sym& a, symv::Sym& b, symv::Sym& c, const symv::Sym* const, const bool) {
+      a = c24::g_vp[0]; b = c24::g_vp[1]; c = c24::g_vp[2];
+    }
+    static void computeEigenVectors(tvector<3u, symv::Sym>& vp, tmatrix<3u, 3u, symv::Sym>& m, const symv::Sym* const, const bool) {
+      for (unsigned short i = 0; i < 3; ++i) {
+        vp(i) = c24::g_vp[i];
+        for (unsigned short j = 0; j < 3; ++j) m(i, j) = c24::g_m[3 * i + j];
+      }
+    }
+  };
+  template <>
+  struct StensorEigenSolver<stensor_common::FSESJACOBIEIGENSOLVER, 2u, symv::Sym> {
+    static void computeEigenValues(symv::Sym& a, symv::Sym& b, symv::Sym& c, const symv::Sym* const, const bool) {
+      a = c24::g_vp[0]; b = c24::g_vp[1]; c = c24::g_vp[2];
+    }
+    static void computeEigenVectors(tvector<3u, symv::Sym>& vp, tmatrix<3u, 3u, symv::Sym>& m, const symv::Sym* const, const bool) {
+      for (unsigned short i = 0; i < 3; ++i) {
+        vp(i) = c24::g_vp[i];
+        for (unsigned short j = 0; j < 3; ++j) m(i, j) = c24::g_m[3 * i + j];
+      }
+    }
+  };
+}  // namespace tfel::math::internals
+
+// FiniteStrainBehaviourTangentOperator.hxx includes the handler: both under the access override
+#define private public
+#define protected public
+#include "TFEL/Material/FiniteStrainBehaviourTangentOperator.hxx"
 #include "TFEL/Material/LogarithmicStrainHandler.hxx"
-#include <cstring>
-#include <iostream>
+#undef private
+#undef protected
+
 using namespace symv;
 using tfel::material::LogarithmicStrainHandler;
 using tfel::material::LogarithmicStrainHandlerBase;
+using tfel::math::st2tost2;
+using tfel::math::stensor;
+using tfel::math::tensor;
+using tfel::math::tmatrix;
+using tfel::math::tvector;
+static constexpr auto LAG = LogarithmicStrainHandlerBase::LAGRANGIAN;
+static constexpr auto EUL = LogarithmicStrainHandlerBase::EULERIAN;
 
-// in: F[3], T[3], Ks[9]; out: e[3], S[3], Kr[9], T'(S)[3] (round trip)
 template <typename T>
-std::vector<T> h1(const std::vector<T>& F, const std::vector<T>& Tt, const std::vector<T>& Ks) {
-  tfel::math::tensor<1u, T> Ft;
-  for (int i = 0; i < 3; ++i) Ft[i] = F[i];
-  LogarithmicStrainHandler<1u, T> h(LogarithmicStrainHandlerBase::LAGRANGIAN, Ft);
-  tfel::math::stensor<1u, T> Ts{Tt[0], Tt[1], Tt[2]};
-  tfel::math::st2tost2<1u, T> K;
-  for (unsigned short i = 0; i < 3; ++i)
-    for (unsigned short j = 0; j < 3; ++j) K(i, j) = Ks[3 * i + j];
-  const auto e = h.getHenckyLogarithmicStrain();
-  const auto S = h.convertToSecondPiolaKirchhoffStress(Ts);
-  const auto Kr = h.convertToMaterialTangentModuli(K, Ts);
-  const auto Tb = h.convertFromSecondPiolaKirchhoffStress(S);
-  std::vector<T> r{e[0], e[1], e[2], S[0], S[1], S[2]};
-  for (unsigned short i = 0; i < 3; ++i)
-    for (unsigned short j = 0; j < 3; ++j) r.push_back(Kr(i, j));
-  for (unsigned short i = 0; i < 3; ++i) r.push_back(Tb[i]);
+void append(std::vector<T>& a, const std::vector<T>& b) { a.insert(a.end(), b.begin(), b.end()); }
+template <unsigned short N, typename T>
+std::vector<T> flat4(const st2tost2<N, T>& K) {
+  constexpr unsigned short n = tfel::math::StensorDimeToSize<N>::value;
+  std::vector<T> r;
+  for (unsigned short i = 0; i < n; ++i)
+    for (unsigned short j = 0; j < n; ++j) r.push_back(K(i, j));
   return r;
 }
+template <unsigned short N, typename T>
+std::vector<T> flat2(const stensor<N, T>& s) { return std::vector<T>(s.begin(), s.end()); }
+
+// ================================================================================================================ 1D
+// in: F[3], T[3], Ks[9], setting; out: e[3], S[3], Kmat[9], T'(S)[3], sigma[3], T''(sigma)[3], Kspatial[9], Ktruesdell[9]
+template <typename T>
+std::vector<T> h1(const std::vector<T>& x, bool eulerian) {
+  tensor<1u, T> Ft;
+  for (int i = 0; i < 3; ++i) Ft[i] = x[i];
+  LogarithmicStrainHandler<1u, T> h(eulerian ? EUL : LAG, Ft);
+  stensor<1u, T> Ts{x[3], x[4], x[5]};
+  st2tost2<1u, T> K;
+  for (unsigned short i = 0; i < 3; ++i)
+    for (unsigned short j = 0; j < 3; ++j) K(i, j) = x[6 + 3 * i + j];
+  std::vector<T> r = flat2<1u, T>(h.getHenckyLogarithmicStrain());
+  const auto S = h.convertToSecondPiolaKirchhoffStress(Ts);
+  append(r, flat2<1u, T>(S));
+  append(r, flat4<1u, T>(h.convertToMaterialTangentModuli(K, Ts)));
+  append(r, flat2<1u, T>(h.convertFromSecondPiolaKirchhoffStress(S)));
+  const auto sig = h.convertToCauchyStress(Ts);
+  append(r, flat2<1u, T>(sig));
+  append(r, flat2<1u, T>(h.convertFromCauchyStress(sig)));
+  append(r, flat4<1u, T>(h.convertToSpatialTangentModuli(K, Ts)));
+  append(r, flat4<1u, T>(h.convertToCauchyStressTruesdellRateTangentModuli(K, Ts)));
+  return r;
+}
+
+// ================================================================================================================ 2D / 3D
+template <unsigned short N>
+struct Dim;
+template <>
+struct Dim<3u> {
+  static constexpr int ns = 6, nf = 9, nm = 9, nt = 6;  // stensor size, tensor size, free entries of m, number of N tensors traced
+  template <typename T>
+  static tmatrix<3u, 3u, T> mat(const T* m) {
+    tmatrix<3u, 3u, T> r;
+    for (unsigned short i = 0; i < 3; ++i)
+      for (unsigned short j = 0; j < 3; ++j) r(i, j) = m[3 * i + j];
+    return r;
+  }
+};
+template <>
+struct Dim<2u> {
+  static constexpr int ns = 4, nf = 5, nm = 4, nt = 4;
+  template <typename T>
+  static tmatrix<3u, 3u, T> mat(const T* m) {  // plane tensors: third eigenvector is e_z (what the 2D solver returns)
+    tmatrix<3u, 3u, T> r;
+    r(0, 0) = m[0]; r(0, 1) = m[1]; r(1, 0) = m[2]; r(1, 1) = m[3];
+    r(0, 2) = r(1, 2) = r(2, 0) = r(2, 1) = T(0);
+    r(2, 2) = T(1);
+    return r;
+  }
+};
+template <typename T>
+void inject(const T*, const tmatrix<3u, 3u, T>&) {}
+template <>
+void inject<Sym>(const Sym* vp, const tmatrix<3u, 3u, Sym>& m) {
+  for (int i = 0; i < 3; ++i) c24::g_vp[i] = vp[i];
+  for (unsigned short i = 0; i < 3; ++i)
+    for (unsigned short j = 0; j < 3; ++j) c24::g_m[3 * i + j] = m(i, j);
+}
+template <unsigned short N, typename T>
+tensor<N, T> tens(const T* f) {
+  tensor<N, T> F;
+  for (int i = 0; i < Dim<N>::nf; ++i) F[i] = f[i];
+  return F;
+}
+// the N (or M) tensors in the order in which they are traced: 3D: (0,0) (1,1) (2,2) (0,1) (0,2) (1,2); 2D: N(0..3)
+template <typename T>
+std::vector<T> flatN(const tmatrix<3u, 3u, stensor<3u, T>>& n) {
+  std::vector<T> r;
+  const int ij[6][2] = {{0, 0}, {1, 1}, {2, 2}, {0, 1}, {0, 2}, {1, 2}};
+  for (auto& p : ij) append(r, flat2<3u, T>(n(p[0], p[1])));
+  return r;
+}
+template <typename T>
+std::vector<T> flatN(const tvector<4u, stensor<2u, T>>& n) {
+  std::vector<T> r;
+  for (unsigned short k = 0; k < 4; ++k) append(r, flat2<2u, T>(n(k)));
+  return r;
+}
+template <typename T>
+tmatrix<3u, 3u, stensor<3u, T>> unflatN3(const T* x) {
+  tmatrix<3u, 3u, stensor<3u, T>> n;
+  const int ij[6][2] = {{0, 0}, {1, 1}, {2, 2}, {0, 1}, {0, 2}, {1, 2}};
+  for (int k = 0; k < 6; ++k) {
+    stensor<3u, T> s;
+    for (int c = 0; c < 6; ++c) s[c] = x[6 * k + c];
+    n(ij[k][0], ij[k][1]) = s;
+    n(ij[k][1], ij[k][0]) = s;
+  }
+  return n;
+}
+template <typename T>
+tvector<4u, stensor<2u, T>> unflatN2(const T* x) {
+  tvector<4u, stensor<2u, T>> n;
+  for (int k = 0; k < 4; ++k)
+    for (int c = 0; c < 4; ++c) n(k)[c] = x[4 * k + c];
+  return n;
+}
+// x = m[nm] : N tensors ; x = m[nm] F[nf] : Eulerian M tensors
+template <unsigned short N, typename T>
+std::vector<T> stageN(const std::vector<T>& x) {
+  return flatN<T>(LogarithmicStrainHandler<N, T>::getNTensors(Dim<N>::template mat<T>(x.data())));
+}
+template <unsigned short N, typename T>
+std::vector<T> stageM(const std::vector<T>& x) {
+  return flatN<T>(LogarithmicStrainHandler<N, T>::getEulerianMTensors(Dim<N>::template mat<T>(x.data()), tens<N, T>(x.data() + Dim<N>::nm)));
+}
+// x = vp[3] m[nm] (F[nf]) : the Builder through the public constructor; only meaningful for T = Sym (injected eigen-data).
+// out: p (ns*ns) ++ e (3) ++ Hencky strain (ns)        [Lagrangian]       p (ns*ns)        [Eulerian]
+template <unsigned short N>
+std::vector<Sym> stageBuild(const std::vector<Sym>& x, bool eulerian) {
+  const auto m = Dim<N>::template mat<Sym>(x.data() + 3);
+  inject<Sym>(x.data(), m);
+  tensor<N, Sym> F = tensor<N, Sym>::Id();
+  if (eulerian) F = tens<N, Sym>(x.data() + 3 + Dim<N>::nm);
+  LogarithmicStrainHandler<N, Sym> h(eulerian ? EUL : LAG, F);
+  auto r = flat4<N, Sym>(h.p);
+  if (!eulerian) {
+    for (int i = 0; i < 3; ++i) r.push_back(h.e[i]);
+    append(r, flat2<N, Sym>(h.getHenckyLogarithmicStrain()));
+  }
+  return r;
+}
+// a handler whose members are given (through the Builder and the private constructor, the way the public constructor does)
+template <unsigned short N, typename T>
+std::unique_ptr<LogarithmicStrainHandler<N, T>> make(bool eulerian, const T* vp, const T* e, const T* p, const tmatrix<3u, 3u, T>& m,
+                                                      const tensor<N, T>& F) {
+  using H = LogarithmicStrainHandler<N, T>;
+  const T one[3] = {T(1), T(1), T(1)};
+  inject<T>(one, tmatrix<3u, 3u, T>::Id());
+  typename H::Builder b = [&] {
+    if constexpr (N == 2u) return typename H::Builder(LAG, tensor<N, T>::Id(), true);
+    else return typename H::Builder(LAG, tensor<N, T>::Id());
+  }();
+  constexpr int ns = Dim<N>::ns;
+  for (unsigned short i = 0; i < ns; ++i)
+    for (unsigned short j = 0; j < ns; ++j) b.p(i, j) = p[ns * i + j];
+  for (unsigned short i = 0; i < 3; ++i) {
+    b.vp(i) = vp[i];
+    b.e(i) = e[i];
+  }
+  b.m = m;
+  return std::unique_ptr<H>(new H(std::move(b), eulerian ? EUL : LAG, F));
+}
+// x = p[ns*ns] T[ns] : S = convertToSecondPiolaKirchhoffStress(T)
+template <unsigned short N, typename T>
+std::vector<T> stageStress(const std::vector<T>& x) {
+  constexpr int ns = Dim<N>::ns;
+  const T z[3] = {T(1), T(1), T(1)}, ze[3] = {T(0), T(0), T(0)};
+  auto h = make<N, T>(false, z, ze, x.data(), tmatrix<3u, 3u, T>::Id(), tensor<N, T>::Id());
+  stensor<N, T> Ts;
+  for (int c = 0; c < ns; ++c) Ts[c] = x[ns * ns + c];
+  return flat2<N, T>(h->convertToSecondPiolaKirchhoffStress(Ts));
+}
+// x = vp[3] e[3] p[ns*ns] T[ns] Ks[ns*ns] N[nt*ns] M[nt*ns] : Kr = convertTangentModuli(Ks, T, N, M)
+template <unsigned short N, typename T>
+std::vector<T> stageConv(const std::vector<T>& x) {
+  constexpr int ns = Dim<N>::ns, nt = Dim<N>::nt;
+  const T* vp = x.data();
+  const T* e = vp + 3;
+  const T* p = e + 3;
+  const T* Tt = p + ns * ns;
+  const T* ks = Tt + ns;
+  const T* n = ks + ns * ns;
+  const T* mm = n + nt * ns;
+  auto h = make<N, T>(false, vp, e, p, tmatrix<3u, 3u, T>::Id(), tensor<N, T>::Id());
+  stensor<N, T> Ts;
+  for (int c = 0; c < ns; ++c) Ts[c] = Tt[c];
+  st2tost2<N, T> Ks, Kr;
+  for (unsigned short i = 0; i < ns; ++i)
+    for (unsigned short j = 0; j < ns; ++j) Ks(i, j) = ks[ns * i + j];
+  if constexpr (N == 3u) h->convertTangentModuli(Kr, Ks, Ts, unflatN3<T>(n), unflatN3<T>(mm));
+  else h->convertTangentModuli(Kr, Ks, Ts, unflatN2<T>(n), unflatN2<T>(mm));
+  return flat4<N, T>(Kr);
+}
+
+// the two parts of the conversion, as specialisations of the same code:
+//   convK: T = 0 (and distinct constant eigenvalues: no test on symbolic values) -> the part 4 p^T Ks p;   x = p[ns*ns] Ks[ns*ns]
+//   convG: Ks = 0, p = 0, and N_ij = 2 x (the basis tensor number idx(i,j)) so that zeta_ij = (T | N_ij)/2 = T_idx(i,j) =: t_ij
+//          -> the geometric part as a function of the eigen-data, of the t_ij and of the M tensors;       x = vp[3] e[3] t[ns] M[nt*ns]
+template <unsigned short N, typename T>
+std::vector<T> stageConvK(const std::vector<T>& x) {
+  constexpr int ns = Dim<N>::ns, nt = Dim<N>::nt;
+  std::vector<T> y{T(1), T(2), T(3), T(0), T(0), T(0)};
+  y.insert(y.end(), x.begin(), x.begin() + ns * ns);
+  for (int c = 0; c < ns; ++c) y.push_back(T(0));
+  y.insert(y.end(), x.begin() + ns * ns, x.end());
+  for (int c = 0; c < 2 * nt * ns; ++c) y.push_back(T(0));
+  return stageConv<N, T>(y);
+}
+template <unsigned short N, typename T>
+std::vector<T> stageConvG(const std::vector<T>& x) {
+  constexpr int ns = Dim<N>::ns, nt = Dim<N>::nt;
+  std::vector<T> y(x.begin(), x.begin() + 6);
+  for (int c = 0; c < ns * ns; ++c) y.push_back(T(0));
+  // T: component k of T is t of the k-th traced tensor; 2D: N(0) N(1) N(2) N(3) <-> components 0 1 2 3
+  y.insert(y.end(), x.begin() + 6, x.begin() + 6 + ns);
+  for (int c = 0; c < ns * ns; ++c) y.push_back(T(0));
+  for (int k = 0; k < nt; ++k)
+    for (int c = 0; c < ns; ++c) y.push_back(c == k ? T(2) : T(0));
+  y.insert(y.end(), x.begin() + 6 + ns, x.end());
+  return stageConv<N, T>(y);
+}
+
+// ---------------------------------------------------------------------------------------------------------------- agreement
+static int g_ok = 0, g_fail = 0;
+static void verdict(const char* name, int it, bool ok, const std::vector<double>& x) {
+  std::printf("%s %s case %d", ok ? "AGREE" : "AGREE-FAIL", name, it);
+  if (!ok)
+    for (double v : x) std::printf(" %.17g", v);
+  std::printf("\n");
+  ok ? ++g_ok : ++g_fail;
+}
+static bool evalv(const std::vector<Leaf>& leaves, const std::vector<Sym>& ps, const std::vector<double>& x, std::vector<long double>& r) {
+  Env env;
+  for (size_t k = 0; k < ps.size(); ++k) env[Store::get().nodes[node_of(ps[k])].name] = x[k];
+  std::string err;
+  return eval_leaves(leaves, env, r, &err) && err.empty();
+}
+static bool same(const std::vector<long double>& r, const std::vector<double>& d, long double tol = 1e-10L) {
+  if (r.size() != d.size()) return false;
+  long double sc = 1e-300L;
+  for (auto v : r) sc = std::max(sc, std::fabs(v));
+  for (size_t i = 0; i < d.size(); ++i)
+    if (!(std::fabs(r[i] - d[i]) <= tol * sc)) return false;
+  return true;
+}
+static std::vector<Leaf> one_leaf(const std::vector<Sym>& out) {
+  Leaf L;
+  L.out = out;
+  return {L};
+}
+static std::vector<Sym> nvars(const char* p, int n) {
+  std::vector<Sym> v;
+  for (int i = 0; i < n; ++i) v.push_back(var(std::string(p) + std::to_string(i)));
+  return v;
+}
+// a random deformation gradient with prescribed principal stretches (possibly repeated): F = Q diag(l) R^T, Q, R rotations
+static void rotation(Rng& rng, double R[3][3], bool plane) {
+  const double a = rng.range(0, 6.28), b = plane ? 0 : rng.range(0, 3.14), c = plane ? 0 : rng.range(0, 6.28);
+  const double ca = std::cos(a), sa = std::sin(a), cb = std::cos(b), sb = std::sin(b), cc = std::cos(c), sc = std::sin(c);
+  const double Rz[3][3] = {{ca, -sa, 0}, {sa, ca, 0}, {0, 0, 1}}, Rx[3][3] = {{1, 0, 0}, {0, cb, -sb}, {0, sb, cb}}, Rz2[3][3] = {{cc, -sc, 0}, {sc, cc, 0}, {0, 0, 1}};
+  double t[3][3] = {};
+  for (int i = 0; i < 3; ++i)
+    for (int j = 0; j < 3; ++j)
+      for (int k = 0; k < 3; ++k) t[i][j] += Rz[i][k] * Rx[k][j];
+  for (int i = 0; i < 3; ++i)
+    for (int j = 0; j < 3; ++j) {
+      R[i][j] = 0;
+      for (int k = 0; k < 3; ++k) R[i][j] += t[i][k] * Rz2[k][j];
+    }
+}
+template <unsigned short N>
+tensor<N, double> randomF(Rng& rng, int kind) {
+  double l[3] = {rng.range(0.6, 1.6), rng.range(0.6, 1.6), rng.range(0.6, 1.6)};
+  if (kind == 1) l[1] = l[0];
+  if (kind == 2) l[2] = l[0];
+  if (kind == 3) l[2] = l[1];
+  if (kind == 4) l[1] = l[2] = l[0];
+  if (N == 2u && kind >= 2) l[2] = rng.range(0.6, 1.6);
+  double Q[3][3], R[3][3];
+  rotation(rng, Q, N == 2u);
+  rotation(rng, R, N == 2u);
+  double f[3][3] = {};
+  for (int i = 0; i < 3; ++i)
+    for (int j = 0; j < 3; ++j)
+      for (int k = 0; k < 3; ++k) f[i][j] += Q[i][k] * l[k] * R[j][k];
+  tensor<N, double> F;
+  F[0] = f[0][0]; F[1] = f[1][1]; F[2] = f[2][2]; F[3] = f[0][1]; F[4] = f[1][0];
+  if constexpr (N == 3u) { F[5] = f[0][2]; F[6] = f[2][0]; F[7] = f[1][2]; F[8] = f[2][1]; }
+  return F;
+}
+
+template <unsigned short N>
+void gen_dim(Trace& tr, Rng& rng) {
+  constexpr int ns = Dim<N>::ns, nf = Dim<N>::nf, nm = Dim<N>::nm, nt = Dim<N>::nt;
+  const std::string pre = "lsh" + std::to_string(N) + "_";
+  // ---- N and M tensors
+  auto mv = nvars("m", nm), Fv = nvars("F", nf);
+  const auto outN = stageN<N, Sym>(mv);
+  tr.def(pre + "N", mv, outN);
+  std::vector<Sym> mF = mv;
+  append(mF, Fv);
+  const auto outM = stageM<N, Sym>(mF);
+  tr.def(pre + "M", mF, outM);
+  // ---- Builder
+  auto vpv = nvars("vp", 3);
+  std::vector<Sym> bl = vpv;
+  append(bl, mv);
+  auto leavesL = tr.def_paths(pre + "build_L", bl, [&] {
+    if constexpr (N == 3u) {
+      // keep the tree small: on the all-distinct branch of computeIsotropicFunctionDerivative the regularised inverses of
+      // computeEigenTensorsDerivatives (tests |x| < 100 min and |x / (eps/4)| > 1 on the six differences) are decided here first, in
+      // the same terms; their regularisation zone is outside the traced domain
+      const Sym eps = LogarithmicStrainHandler<N, Sym>::eps;
+      const bool b01 = tfel::math::abs(bl[0] - bl[1]) < eps, b02 = tfel::math::abs(bl[0] - bl[2]) < eps, b12 = tfel::math::abs(bl[1] - bl[2]) < eps;
+      if (!b01 && !b02 && !b12) {
+        const Sym eps4 = eps / 4;
+        for (int i = 0; i < 3; ++i)
+          for (int j = 0; j < 3; ++j) {
+            if (i == j) continue;
+            const Sym x = bl[i] - bl[j];
+            if (tfel::math::abs(x) < 100 * std::numeric_limits<Sym>::min()) throw std::runtime_error("outside the traced domain: null difference");
+            if (!(tfel::math::abs(x / eps4) > 1)) throw std::runtime_error("outside the traced domain: regularised inverse");
+          }
+      }
+    }
+    return stageBuild<N>(bl, false);
+  });
+  std::vector<Sym> be = bl;
+  append(be, Fv);
+  auto leavesE = tr.def_paths(pre + "build_E", be, [&] { return stageBuild<N>(be, true); });
+  // ---- stress and tangent conversions with the members of the handler as inputs
+  auto pv = nvars("p", ns * ns), Tv = nvars("T", ns), Kv = nvars("K", ns * ns), ev = nvars("e", 3), Nv = nvars("N", nt * ns), Mv = nvars("M", nt * ns);
+  std::vector<Sym> sp = pv;
+  append(sp, Tv);
+  const auto outS = stageStress<N, Sym>(sp);
+  tr.def(pre + "stress", sp, outS);
+  std::vector<Sym> cp = vpv;
+  append(cp, ev); append(cp, pv); append(cp, Tv); append(cp, Kv); append(cp, Nv); append(cp, Mv);
+  // keep the trees small: the comparisons of the handler are decided first, in the same terms; a difference of eigenvalues equal to
+  // eps in absolute value, or `equal' pairs that are not transitive, are outside the traced domain
+  auto predecide = [](const std::vector<Sym>& v) {
+    const Sym eps = LogarithmicStrainHandler<N, Sym>::eps;
+    auto cls = [&](int i, int j) {
+      const Sym a = tfel::math::abs(v[i] - v[j]);
+      if (a < eps) return 0;
+      if (a > eps) return 1;
+      throw std::runtime_error("outside the traced domain: |vp_i - vp_j| = eps");
+    };
+    if constexpr (N == 3u) {
+      const int c10 = cls(1, 0), c12 = cls(1, 2), c20 = cls(2, 0);
+      if ((c10 == 0) + (c12 == 0) + (c20 == 0) == 2) throw std::runtime_error("outside the traced domain: non transitive equalities of eigenvalues");
+    } else {
+      (void)cls(0, 1);
+    }
+  };
+  auto leavesC = tr.def_paths(pre + "conv", cp, [&] {
+    predecide(cp);
+    return stageConv<N, Sym>(cp);
+  });
+  std::vector<Sym> ck = pv;
+  append(ck, Kv);
+  const auto outK = stageConvK<N, Sym>(ck);
+  tr.def(pre + "convK", ck, outK);
+  auto tv = nvars("t", ns);
+  std::vector<Sym> cg = vpv;
+  append(cg, ev); append(cg, tv); append(cg, Mv);
+  auto leavesG = tr.def_paths(pre + "convG", cg, [&] {
+    predecide(cg);
+    return stageConvG<N, Sym>(cg);
+  });
+  // the same with M_ij = 2 x (basis tensor number idx(i,j)) as well: the coefficients of the dyads M_x (x) M_y, x = vp[3] e[3] t[ns]
+  std::vector<Sym> cb = vpv;
+  append(cb, ev); append(cb, tv);
+  auto basisM = [&](const std::vector<Sym>& v) {
+    std::vector<Sym> y = v;
+    for (int k = 0; k < nt; ++k)
+      for (int c = 0; c < ns; ++c) y.push_back(c == k ? Sym(2) : Sym(0));
+    return y;
+  };
+  auto leavesB = tr.def_paths(pre + "convGb", cb, [&] {
+    predecide(cb);
+    return stageConvG<N, Sym>(basisM(cb));
+  });
+  (void)leavesB;
+  // ---- agreement of each stage with its double instantiation, then of the composed stages with the public entry points
+  for (int it = 0; it < 40; ++it) {
+    const auto F = randomF<N>(rng, it % 5);
+    LogarithmicStrainHandler<N, double> hL(LAG, F), hE(EUL, F);
+    std::vector<double> vp{hL.vp[0], hL.vp[1], hL.vp[2]}, e{hL.e[0], hL.e[1], hL.e[2]}, m, Fd(F.begin(), F.end());
+    if (N == 3u) for (unsigned short i = 0; i < 3; ++i) for (unsigned short j = 0; j < 3; ++j) m.push_back(hL.m(i, j));
+    else m = {hL.m(0, 0), hL.m(0, 1), hL.m(1, 0), hL.m(1, 1)};
+    std::vector<double> x;
+    std::vector<long double> r;
+    // N, M
+    verdict((pre + "N").c_str(), it, evalv(one_leaf(outN), mv, m, r) && same(r, stageN<N, double>(m)), m);
+    x = m; append(x, Fd);
+    verdict((pre + "M").c_str(), it, evalv(one_leaf(outM), mF, x, r) && same(r, stageM<N, double>(x)), x);
+    // Builder against the members of the real handlers (real solver)
+    x = vp; append(x, m);
+    std::vector<double> ref = flat4<N, double>(hL.p);
+    append(ref, e);
+    append(ref, flat2<N, double>(hL.getHenckyLogarithmicStrain()));
+    verdict((pre + "build_L").c_str(), it, evalv(leavesL, bl, x, r) && same(r, ref, 1e-8L), x);
+    append(x, Fd);
+    verdict((pre + "build_E").c_str(), it, evalv(leavesE, be, x, r) && same(r, flat4<N, double>(hE.p), 1e-8L), x);
+    // stress and tangent conversion
+    std::vector<double> Td, Kd;
+    for (int c = 0; c < ns; ++c) Td.push_back(rng.range(-500., 500.));
+    for (int c = 0; c < ns * ns; ++c) Kd.push_back(rng.range(-1e3, 2e3));
+    stensor<N, double> Ts;
+    st2tost2<N, double> Ks;
+    for (int c = 0; c < ns; ++c) Ts[c] = Td[c];
+    for (unsigned short i = 0; i < ns; ++i) for (unsigned short j = 0; j < ns; ++j) Ks(i, j) = Kd[ns * i + j];
+    x = flat4<N, double>(hL.p); append(x, Td);
+    verdict((pre + "stress").c_str(), it, evalv(one_leaf(outS), sp, x, r) && same(r, flat2<N, double>(hL.convertToSecondPiolaKirchhoffStress(Ts))), x);
+    const auto Nd = stageN<N, double>(m);
+    std::vector<double> mFd = m; append(mFd, Fd);
+    const auto Md = stageM<N, double>(mFd);
+    x = vp; append(x, e); append(x, flat4<N, double>(hL.p)); append(x, Td); append(x, Kd); append(x, Nd); append(x, Nd);
+    verdict((pre + "conv_material").c_str(), it, evalv(leavesC, cp, x, r) && same(r, flat4<N, double>(hL.convertToMaterialTangentModuli(Ks, Ts)), 1e-8L), x);
+    x = flat4<N, double>(hL.p); append(x, Kd);
+    verdict((pre + "convK").c_str(), it, evalv(one_leaf(outK), ck, x, r) && same(r, stageConvK<N, double>(x)), x);
+    x = vp; append(x, e); append(x, Td); append(x, Md);
+    verdict((pre + "convG").c_str(), it, evalv(leavesG, cg, x, r) && same(r, stageConvG<N, double>(x), 1e-8L), x);
+    x = vp; append(x, e); append(x, flat4<N, double>(hE.p)); append(x, Td); append(x, Kd); append(x, Nd); append(x, Md);
+    verdict((pre + "conv_spatial").c_str(), it, evalv(leavesC, cp, x, r) && same(r, flat4<N, double>(hE.convertToSpatialTangentModuli(Ks, Ts)), 1e-8L), x);
+  }
+}
+
 int main(int argc, char** argv) {
   if (argc >= 3 && !std::strcmp(argv[1], "gen")) {
     Trace tr("C24_gen");
     Rng rng(argc >= 4 ? std::strtoull(argv[3], nullptr, 10) : 1);
-    auto F = vars("F", 3), T = vars("T", 3), K = vars("K", 9);
-    std::vector<Sym> ps = F;
-    ps.insert(ps.end(), T.begin(), T.end());
-    ps.insert(ps.end(), K.begin(), K.end());
-    auto r = h1<Sym>(F, T, K);
-    tr.def("lsh1", ps, r);
-    tr.write(argv[2]);
-    int nag = 0, nfail = 0;
-    for (int k = 0; k < 50; ++k) {
-      Env env;
-      std::vector<double> Fd, Td, Kd;
-      for (int i = 0; i < 3; ++i) { Fd.push_back(rng.range(0.3, 3.)); env["F" + std::to_string(i)] = Fd.back(); }
-      for (int i = 0; i < 3; ++i) { Td.push_back(rng.range(-500., 500.)); env["T" + std::to_string(i)] = Td.back(); }
-      for (int i = 0; i < 9; ++i) { Kd.push_back(rng.range(-1e5, 2e5)); env["K" + std::to_string(i)] = Kd.back(); }
-      auto d = h1<double>(Fd, Td, Kd);
-      bool ok = true;
-      for (size_t i = 0; ok && i < d.size(); ++i) ok = close(eval(r[i], env), d[i], 0, 1e-11L);
-      std::printf("%s lsh1 case %d\n", ok ? "AGREE" : "AGREE-FAIL", k);
-      ok ? ++nag : ++nfail;
-      // independent numeric statement of the property on the real double code (failing-input search)
-      bool pw = true;
-      for (int i = 0; i < 3; ++i) {
-        pw = pw && std::fabs(d[i] - 0.5 * std::log(Fd[i] * Fd[i])) <= 1e-13;                       // Hencky strain = 1/2 ln C
-        pw = pw && std::fabs(d[3 + i] * Fd[i] - Td[i] / Fd[i]) <= 1e-12 * std::fabs(Td[i] / Fd[i]);  // S dE_GL = T dE_log
-        for (int j = 0; j < 3; ++j) {
-          const double Ci = Fd[i] * Fd[i], Cj = Fd[j] * Fd[j];
-          const double ex = Kd[3 * i + j] / (Ci * Cj) - (i == j ? 2 * Td[i] / (Ci * Ci) : 0.);
-          pw = pw && std::fabs(d[6 + 3 * i + j] - ex) <= 1e-11 * (std::fabs(ex) + std::fabs(Kd[3 * i + j]) / (Ci * Cj));
+    {  // 1D
+      auto ps = nvars("F", 3);
+      append(ps, nvars("T", 3));
+      append(ps, nvars("K", 9));
+      for (int eul = 0; eul < 2; ++eul) {
+        const auto r = h1<Sym>(ps, eul);
+        tr.def(eul ? "lsh1_E" : "lsh1", ps, r);
+        for (int k = 0; k < 30; ++k) {
+          std::vector<double> x;
+          for (int i = 0; i < 3; ++i) x.push_back(rng.range(0.3, 3.));
+          for (int i = 0; i < 3; ++i) x.push_back(rng.range(-500., 500.));
+          for (int i = 0; i < 9; ++i) x.push_back(rng.range(-1e5, 2e5));
+          std::vector<long double> rr;
+          verdict(eul ? "lsh1_E" : "lsh1", k, evalv(one_leaf(r), ps, x, rr) && same(rr, h1<double>(x, eul), 1e-11L), x);
         }
       }
-      std::printf("%s case %d F %.17g %.17g %.17g T %.17g %.17g %.17g\n", pw ? "SPEC" : "SPEC-FAIL", k, Fd[0], Fd[1], Fd[2], Td[0], Td[1], Td[2]);
     }
-    std::printf("SUMMARY agree=%d fail=%d\n", nag, nfail);
+    gen_dim<2u>(tr, rng);
+    gen_dim<3u>(tr, rng);
+    tr.write(argv[2]);
+    std::printf("SUMMARY agree=%d fail=%d\n", g_ok, g_fail);
     return 0;
   }
   return 2;
